@@ -67,6 +67,7 @@ E2E = gen.election_case(
     max_alphas=3,
     min_nonrep=1,
     statuses=(gen.N, gen.N, gen.N, gen.NH, gen.N0, gen.A, gen.Z, gen.B, gen.T_HI),
+    lopsided=0.3,  # units whose baseline margin is +-0.99: a small swing pushes the raw prediction outside [-1, 1]
 )
 
 
